@@ -92,6 +92,15 @@ def run_case(cls, key, seed, ctx):
                 ctx.check(_same(a_n, b_n, rt), "weight_k_differs_from_k_copies:" + f.__name__, enc=name, weight_dtype=wdt, rows=n, y_true=yy[:40], y_pred=pp[:40],
                           weights=w.tolist()[:40], weighted=repr(a_n), repeated=repr(b_n))
                 ctx.check(_same(b_n, c_n, rt), "none_differs_from_all_ones:" + f.__name__, enc=name, weight_dtype=wdt, rows=len(rep), none=repr(b_n), ones=repr(c_n))
+            if f in (M.selection_rate, M.mean_prediction):
+                # these two squeeze their inputs themselves: weights as an (n,1) column or a one-column DataFrame are the same weights
+                import pandas as pd
+
+                wcol = np.asarray(w, dtype=float).reshape(-1, 1)
+                a_col = f(yy, pp, sample_weight=wcol if rng.random() < 0.5 else pd.DataFrame({"w": np.asarray(w, dtype=float)}), **fkw)
+                ctx.ev("metamorphic_pairs_compared")
+                ctx.check(_same(a_col, f(yr, pr, **fkw)), "weight_k_differs_from_k_copies:" + f.__name__, enc=name, weight_container="column (n,1)", y_true=yy[:40],
+                          y_pred=pp[:40], weights=w.tolist()[:40], weighted=repr(a_col), repeated=repr(f(yr, pr, **fkw)))
             a = f(yy, pp, sample_weight=wv(w), **fkw)
             b = f(yr, pr, **fkw)
             c = f(yr, pr, sample_weight=wv(np.ones(len(rep))), **fkw)
